@@ -265,6 +265,10 @@ def process_level(ctx, mod, demod, only=None):
             if kind == "silence":
                 ctx.violation("no-acquisition-on-silent-audio", "m17-demod never acquires a transmission of silent audio for some link parameters "
                               "(nothing printed, nothing written; both exit 0)", replay)
+            elif lead:
+                # recorded finding (same defect as C06 deaf-coasting-on-garbage, seen through the applications): identified by the noise lead-in
+                ctx.violation("no-acquisition-after-leading-noise", "m17-demod fed about 1 s of noise before the transmission never acquires it "
+                              "(nothing printed, nothing written; both exit 0)", replay)
             else:
                 ctx.violation("pipeline-no-acquisition", "m17-demod never acquires the transmission (nothing printed, nothing written)", replay)
             continue
@@ -273,6 +277,11 @@ def process_level(ctx, mod, demod, only=None):
         want = expected[i][1].strip(b"\n")
         if any(d.encode() in err for d in PACKET_DIAGS):
             ctx.violation("packet-diagnostics-for-a-voice-stream", "m17-demod prints packet-mode diagnostics for a voice stream", replay); continue
+        if lead and not src_lines and res["out_len"] == 0:
+            # recorded finding: after the noise lead-in only a few LICH fragments are decoded, the link setup is never completed and no audio is written
+            replay["expected_line"] = want.decode(errors="replace")
+            ctx.violation("lsf-not-reported-after-leading-noise", "m17-demod fed about 1 s of noise before the transmission decodes a few LICH fragments "
+                          "but never reports the link setup and writes no audio", replay); continue
         if not src_lines or any(l != want for l in src_lines):
             replay["expected_line"] = want.decode(errors="replace")
             ctx.violation("pipeline-lsf-report", "m17-demod -l does not report the link information given to m17-mod (or reports something else)", replay); continue
